@@ -39,6 +39,8 @@ CHECKS = {
             "only accept/reject and successful results are compared (which of several errors is reported may depend on order)"),
     "C11": ("pairwise rule predicate (exactly the statement's) as oracle over generated definition families in target and referenced-lookup placement; two-definition sub-space enumerated in the thorough tier",
             "unregulated port-IDs (regulated ranges belong to C05)"),
+    "C15": ("R-path oracle (identity parsed from the path by the harness) over a matrix of 14 target/root designations with cwd changes; agreement of all succeeding designations; malformed names must be rejected",
+            "exotic numerals accepted by int() are reported, not judged; undocumented mixed designations may fail"),
 }
 
 NOT_YET = {
